@@ -1,30 +1,39 @@
-(** C01 — reading the mechanism flags of the model ([cfg]) off the generated facts.  No proofs. *)
+(** C01 — reading the mechanism flags of the model ([cfg]) off the generated facts.  No proofs.
+
+    The flags are stated over the TYPE of the ranged map inside a package, not over function names, so
+    renaming a function or moving a loop into a helper does not flip them:
+    "every range over journal.dirties' type in x/evm/statedb either sorts what it collects or is
+    order-insensitive by shape". *)
 From Coq Require Import List Bool Arith String.
 Import ListNotations.
 Require Import Nib.C01.Sites Nib.C01.Model.
 Local Open Scope string_scope.
 
-Definition site_is (pkg fn : string) (ord : nat) (s : site) : bool :=
-  String.eqb (s_pkg s) pkg && String.eqb (s_fn s) fn && Nat.eqb (s_ord s) ord.
+(** shapes that need no mechanism: the order cannot matter *)
+Definition syn_insensitive (sy : syn) : bool :=
+  match sy with SynCollectSorted | SynBuildMap | SynMember | SynAccum => true | _ => false end.
 
-Definition site_has_syn (pkg fn : string) (ord : nat) (sy : syn) (l : list site) : bool :=
-  match find (site_is pkg fn ord) l with
-  | Some s => syn_eqb (s_syn s) sy
-  | None => false
-  end.
+Definition over (pkg ty : string) (s : site) : bool :=
+  String.eqb (s_pkg s) pkg && String.eqb (s_type s) ty.
 
-Definition fn_has_no_map_range (pkg fn : string) (l : list site) : bool :=
-  negb (existsb (fun s => String.eqb (s_pkg s) pkg && String.eqb (s_fn s) fn) l).
+(** some range over that map type collects and sorts, and no range over it lets the order out *)
+Definition sorted_everywhere (pkg ty : string) (l : list site) : bool :=
+  existsb (fun s => over pkg ty s && syn_eqb (s_syn s) SynCollectSorted) l &&
+  forallb (fun s => negb (over pkg ty s) || syn_insensitive (s_syn s)) l.
 
-Definition ts_use_is (pkg fn : string) (ord : nat) (k : ts_kind) (u : ts_use) : bool :=
-  String.eqb (t_pkg u) pkg && String.eqb (t_fn u) fn && Nat.eqb (t_ord u) ord && ts_kind_eqb (t_kind u) k.
+(** no range over that map type lets the order out (the code goes through omap instead) *)
+Definition never_ranged_unsorted (pkg ty : string) (l : list site) : bool :=
+  forallb (fun s => negb (over pkg ty s) || syn_insensitive (s_syn s)) l.
+
+Definition ts_in (pkg : string) (u : ts_use) : bool := String.eqb (t_pkg u) pkg.
 
 Definition cfg_of_facts (sites : list site) (uses : list ts_use) : cfg :=
-  let commit_clean := fn_has_no_map_range "x/evm/statedb" "StateDB.commitCtx" sites in
   mk_cfg
-    (existsb (ts_use_is "x/sudo/keeper" "Sudoers.ToPb" 0 UseSorted) uses)
-    (site_has_syn "x/evm/statedb" "journal.sortedDirties" 0 SynCollectSorted sites && commit_clean)
-    (site_has_syn "x/evm/statedb" "Storage.SortedKeys" 0 SynCollectSorted sites && commit_clean)
-    (site_has_syn "x/common/omap" "SortedMap.ensureOrder" 0 SynCollectSorted sites)
-    (fn_has_no_map_range "x/oracle/keeper" "Keeper.tallyVotesAndUpdatePrices" sites)
-    (fn_has_no_map_range "x/oracle/keeper" "Keeper.removeInvalidVotes" sites).
+    (* every ToSlice result inside x/sudo/keeper is sorted (or only measured), and one is sorted *)
+    (existsb (fun u => ts_in "x/sudo/keeper" u && ts_kind_eqb (t_kind u) UseSorted) uses &&
+     forallb (fun u => negb (ts_in "x/sudo/keeper" u) || ts_kind_eqb (t_kind u) UseSorted || ts_kind_eqb (t_kind u) UseLen) uses)
+    (sorted_everywhere "x/evm/statedb" "map[common.Address]int" sites)
+    (sorted_everywhere "x/evm/statedb" "statedb.Storage" sites)
+    (sorted_everywhere "x/common/omap" "map[K]V" sites)
+    (never_ranged_unsorted "x/oracle/keeper" "map[asset.Pair]types.ExchangeRateVotes" sites)
+    (never_ranged_unsorted "x/oracle/keeper" "map[asset.Pair]types.ExchangeRateVotes" sites).
